@@ -50,6 +50,11 @@ PROPS = {
         'every body polled 1..4 more times after each kind of terminal event (clean end, entity error, too short, too long) at every fault position of the C07 enumeration, plus mixed requests with faulty fused streams and multipart sets.' + GEN_NOTE),
 }
 
+PROPS['C16'] = dict(engine='negot', fields=['result'], trivial_tags=['absent', 'false:unparseable', 'false:non-ascii', 'false'],
+    rule='Accept-Encoding ASTs over codings {gzip, identity, *, br, deflate, x-gzip} x 20 weights (the 11 of the quantifier + digit counts that cross: 0.05, 0.45, 0.49, 0.051, 0.10, 0.100, ...): all lists of <= 2 (quick) / <= 3 (thorough, 3-element lists sampled 1/4 per seed) elements with canonical whitespace, sampled lists of <= 4 elements with OWS variants and duplicates, near misses, arbitrary bytes. Non-trivial = a header in which gzip, identity or * was recognised.' + GEN_NOTE,
+    trusted_base=COMMON_TB + ['modelled, not verified: HeaderValue::to_str, str::trim restricted to SP/HT (the only whitespace to_str admits)'],
+    assumptions=['HeaderMap::get returns the first Accept-Encoding value', 'to_str admits exactly HT, SP..~'])
+
 def known_class(prop, specfail, known_here):
     """Returns the known-finding entry whose class contains this failing case, if any."""
     for k in known_here:
@@ -79,7 +84,7 @@ def relevant(field, patterns):
     return False
 
 def explore(prop, cfg, tier, seed, work, result, T):
-    if cfg['engine'] == 'serve':
+    if cfg['engine'] in ('serve', 'negot'):
         return explore_lines(prop, cfg, tier, seed, work, result, T)
     raise RuntimeError('unknown engine')
 
